@@ -537,6 +537,70 @@ func runCase(caseIdx int, c *caseDesc, rng *rand.Rand) {
 			return
 		}
 	}
+	// ---- restart after a crash that tore the index: one long-lived searcher is queried, the process "restarts" (a new
+	// writer on the same directory appends newer seconds to a newer file), and the SAME searcher is queried again: every
+	// item written after the restart is intact (line and index entry) and must be found
+	if len(idx) >= 16 {
+		os.WriteFile(cData, data, 0o644)
+		os.WriteFile(cIdx, idx[:len(idx)-1-rng.Intn(15)], 0o644) // cut inside the last index entry
+		s, _ := metric.NewDefaultMetricSearcher(cdir, baseName)
+		var err error
+		// first query: one second in the middle of the torn file (the searcher's cached position is then a non-zero
+		// index offset inside that file), or the whole range
+		q1b, q1e := firstSec*1000, (lastSec+1)*1000
+		var secs []uint64
+		for _, r := range lastRecs {
+			if len(secs) == 0 || secs[len(secs)-1] != r.sec {
+				secs = append(secs, r.sec)
+			}
+		}
+		if len(secs) >= 3 && rng.Intn(4) != 0 {
+			m := secs[1+rng.Intn(len(secs)-2)]
+			q1b, q1e = m*1000, m*1000
+		}
+		if run.Guard("C17/crash:panic-in-search:restart", c, func() { _, err = s.FindByTimeAndResource(q1b, q1e, "") }) {
+			return
+		}
+		e2 := config.NewDefaultConfig()
+		e2.Sentinel.App.Name = app
+		e2.Sentinel.Log.Dir = cdir
+		config.ResetGlobalConfig(e2)
+		clk.SetMs((lastSec + 5) * 1000)
+		w2, werr := metric.NewDefaultMetricLogWriterOfApp(c.MaxSize, c.MaxFiles+8, app)
+		if werr != nil {
+			fail("writer-create-error", "restart on the crashed directory: "+werr.Error())
+			return
+		}
+		var post []string
+		for j := uint64(0); j < 6; j++ {
+			ts := (lastSec + 5 + j) * 1000
+			clk.SetMs(ts)
+			it := &base.MetricItem{Resource: fmt.Sprintf("post-crash-%d", j), Timestamp: ts, PassQps: 10 + j, CompleteQps: j}
+			if run.Guard("C17/panic-in-Write", c, func() { werr = w2.Write(ts, []*base.MetricItem{it}) }) {
+				return
+			}
+			post = append(post, fatOf(it))
+		}
+		if cl, ok := w2.(interface{ Close() error }); ok {
+			cl.Close()
+		}
+		var got []string
+		if run.Guard("C17/crash:panic-in-search:restart", c, func() {
+			a, e3 := s.FindByTimeAndResource((lastSec+5)*1000, (lastSec+12)*1000, "")
+			got, err = fats(a), e3
+		}) {
+			return
+		}
+		if err != nil {
+			fail("crash:search-error:restart", fmt.Sprintf("index torn in its last entry, writer restarted: the searcher that was queried before the restart returned error %v", err))
+			return
+		}
+		if !eq(got, post) {
+			fail("crash:item-lost:restart", fmt.Sprintf("index torn in its last entry, then a restarted writer wrote 6 seconds to a newer file: the searcher that had been queried before the restart returns %d of them: %v", len(got), got))
+			return
+		}
+		run.Count("crash_restarts", 1)
+	}
 	run.Distinct(vk.Hash(c.MaxSize, c.MaxFiles, len(files), len(exp.retained), idx0(idx), caseNo))
 }
 
